@@ -22,6 +22,7 @@ RULE = (
     " Round 6: `hang_requests` - a request write that never completes until the application's receive timeout (virtual time) cancels it; read errors among the events."
     ' Round 7: application sends (presentation request, reboot, req, set) among the events and before the first rejected message.'
     ' Round 8: `flag` ops.'
+    ' Round 9: all 256 node ids enumerated.'
 )
 ASSUMPTIONS = [
     "a failed request write surfaces as a transport error from that listen step (any library error is accepted)",
